@@ -208,3 +208,135 @@ func replayRuleOrder(rc *runCtx, h *harness, v *interp.Violation, file string) (
 	}
 	return false, fmt.Sprintf("200 native runs agree (%d results)", len(results))
 }
+
+// replayRuleFix: the real wrapperFunc rule group mixes rules with and without
+// a Suggest template; on a file where fixable and report-only matches
+// alternate, every diagnostic's fix must cover the diagnostic's own position
+// and report-only rules must carry no fix.
+func replayRuleFix(rc *runCtx, h *harness, v *interp.Violation, file string) (bool, string) {
+	src := "package cand\n\nimport \"strings\"\n\nfunc f(s, t string) (bool, []string, bool, []string) {\n" +
+		"\ta := strings.Index(s, t) >= 0\n" + // Suggest: strings.Contains
+		"\tb := strings.SplitN(s, t, -1)\n" + // report only
+		"\tc := strings.IndexAny(s, t) >= 0\n" + // Suggest
+		"\td := strings.SplitN(t, s, -1)\n" + // report only
+		"\treturn a, b, c, d\n}\n"
+	results, err := runRealised("wrapperFunc", nil, []string{src}, "")
+	if err != nil {
+		return false, err.Error()
+	}
+	if len(results) == 0 || results[0].Status != "OK" {
+		return false, fmt.Sprintf("the example was not analysed: %+v", results)
+	}
+	var ws []struct {
+		Pos, Text string
+		From, To  int
+		HasFix    bool
+		Repl      string
+		Offset    int
+	}
+	json.Unmarshal([]byte(results[0].JSON), &ws)
+	if len(ws) != 4 {
+		return false, fmt.Sprintf("expected 4 diagnostics of wrapperFunc, got %d", len(ws))
+	}
+	for _, w := range ws {
+		reportOnly := strings.Contains(w.Text, "strings.Split method")
+		switch {
+		case reportOnly && w.HasFix:
+			return true, fmt.Sprintf("the report-only diagnostic %q at %s carries a fix (%q for bytes [%d,%d)) that belongs to another diagnostic", w.Text, w.Pos, w.Repl, w.From-1, w.To-1)
+		case !reportOnly && !w.HasFix:
+			return true, fmt.Sprintf("the diagnostic %q at %s lost the fix of its Suggest template", w.Text, w.Pos)
+		case w.HasFix && !(w.From-1 <= w.Offset && w.Offset < w.To-1):
+			return true, fmt.Sprintf("the fix of %q at %s (offset %d) edits bytes [%d,%d), which do not contain the diagnostic", w.Text, w.Pos, w.Offset, w.From-1, w.To-1)
+		case w.HasFix && !strings.Contains(w.Text, w.Repl):
+			return true, fmt.Sprintf("the fix text %q of the diagnostic %q at %s is not the suggestion it quotes", w.Repl, w.Text, w.Pos)
+		}
+	}
+	return false, "the real wrapperFunc checker pairs every diagnostic with its own fix"
+}
+
+const groupsTest = `package checkers
+
+import (
+	"fmt"
+	"go/token"
+	"strings"
+	"testing"
+
+	"github.com/go-critic/go-critic/checkers/rulesdata"
+	"github.com/go-critic/go-critic/linter"
+	"github.com/quasilyte/go-ruleguard/ruleguard"
+)
+
+func TestGSXGroups(t *testing.T) {
+	e := ruleguard.NewEngine()
+	e.InferBuildContext()
+	if err := e.LoadFromIR(&ruleguard.LoadContext{Fset: token.NewFileSet()}, "rules/rules.go", rulesdata.PrecompiledRules); err != nil {
+		t.Fatal(err)
+	}
+	byName := map[string][]*linter.CheckerInfo{}
+	embedded := 0
+	for _, info := range linter.GetCheckersInfo() {
+		byName[info.Name] = append(byName[info.Name], info)
+		if info.EmbeddedRuleguard {
+			embedded++
+		}
+	}
+	groups := e.LoadedGroups()
+	bad := 0
+	say := func(format string, args ...interface{}) {
+		bad++
+		fmt.Printf("GSX-GROUPS\tBAD\t%s\n", fmt.Sprintf(format, args...))
+	}
+	if embedded != len(groups) {
+		say("%d checkers are marked as rule-based, the rule data has %d groups", embedded, len(groups))
+	}
+	for _, g := range groups {
+		infos := byName[g.Name]
+		if len(infos) != 1 {
+			say("rule group %s has %d registered checkers", g.Name, len(infos))
+			continue
+		}
+		info := infos[0]
+		if !info.EmbeddedRuleguard {
+			say("checker %s is not marked as rule-based", g.Name)
+		}
+		if info.Summary != strings.TrimSpace(g.DocSummary) || info.Before != strings.TrimSpace(g.DocBefore) || info.After != strings.TrimSpace(g.DocAfter) || info.Note != strings.TrimSpace(g.DocNote) {
+			say("checker %s: summary/before/after/note differ from the rule group's (%q / %q)", g.Name, info.Summary, g.DocSummary)
+		}
+		if strings.Join(info.Tags, ",") != strings.Join(g.DocTags, ",") {
+			say("checker %s: tags %v differ from the rule group's %v", g.Name, info.Tags, g.DocTags)
+		}
+	}
+	fmt.Printf("GSX-GROUPS\tDONE\t%d groups, %d problems\n", len(groups), bad)
+}
+`
+
+// replayC17Groups compares, natively, the real registered rule-based checkers with the groups the real engine loads from the shipped rule data.
+func replayC17Groups(rc *runCtx, h *harness, v *interp.Violation, file string) (bool, string) {
+	tmp, err := os.MkdirTemp("", "gsx-groups-")
+	if err != nil {
+		return false, err.Error()
+	}
+	defer os.RemoveAll(tmp)
+	tf := filepath.Join(tmp, "zz_verif_groups_test.go")
+	os.WriteFile(tf, []byte(groupsTest), 0o644)
+	out, err := runGoTest(tmp, map[string]string{filepath.Join(repoDir, "checkers", "zz_verif_groups_test.go"): tf},
+		[]string{"-v", "-vet=off", "-count=1", "-run", "^TestGSXGroups$", "./checkers"}, nil)
+	if err != nil {
+		return false, err.Error()
+	}
+	done := false
+	for _, l := range strings.Split(out, "\n") {
+		p := strings.Split(strings.TrimSpace(l), "\t")
+		if len(p) == 3 && p[0] == "GSX-GROUPS" {
+			if p[1] == "BAD" {
+				return true, "real registry vs real rule data: " + p[2]
+			}
+			done = true
+		}
+	}
+	if !done {
+		return false, "native: " + lastLines(out, 3)
+	}
+	return false, "the real registry matches the groups of the shipped rule data"
+}
